@@ -9,6 +9,7 @@
 /* ghost state (DESIGN 3.3) */
 int sq_thrown;                      /* 0 none / 1 std::runtime_error / 2 std::bad_alloc */
 unsigned gk, gk2;                   /* ghost indices: unconstrained, stand for "for all k" */
+unsigned g_eq_wit;                  /* ghost witness index (operator==) */
 
 #define SQ_THROW(...) do{ sq_thrown=1; return SQ_RET; }while(0)
 #define SQ_ASSERT(e)  __CPROVER_assert((e), "assert() of the real code")
